@@ -472,6 +472,64 @@ func runC10(c *Ctx) {
 		c.verdict(len(bad) == 0 && n == 1, c.nm(fi)+" | one fresh, correctly filled report per request", c.P.Pos(fi.Pos()), "SpendReport{txOuts[op.Index], &h, height, uint32(i)} filed under op", join(bad)+fmt.Sprintf(" (%d report site(s))", n), sites...)
 	})
 
+	c.rule("C10.V3", "the start block is searched to the end: findInitialTransactions looks at every transaction of the block; the only early way out of the loop is an empty txid index (len(map) == 0 on the map the requests were grouped into, whose entries are deleted one txid at a time), so requests for different transactions of one block cannot hide each other", func() {
+		fi := c.fn("(*neutrino.batchSpendReporter).findInitialTransactions")
+		txs := c.field(pWire, "MsgBlock", "Transactions")
+		var header *ssa.BasicBlock
+		ir.Instrs(fi, func(in ssa.Instruction) {
+			if ia, ok := in.(*ssa.IndexAddr); ok && loadsField(txs)(ia.X) {
+				if h := ir.LoopHeaderOf(in.Block()); h != nil {
+					// outermost loop around the element load
+					for {
+						outer := (*ssa.BasicBlock)(nil)
+						for _, b := range fi.Blocks {
+							if b != h && len(ir.BackEdgesTo(b)) > 0 && ir.LoopBlocks(b)[h] {
+								if outer == nil || len(ir.LoopBlocks(b)) < len(ir.LoopBlocks(outer)) {
+									outer = b
+								}
+							}
+						}
+						if outer == nil {
+							break
+						}
+						h = outer
+					}
+					header = h
+				}
+			}
+		})
+		// the txid index: the local map keyed by a hash whose values are request lists
+		isIndex := func(v ssa.Value) bool {
+			m, ok := v.Type().Underlying().(*types.Map)
+			if !ok {
+				return false
+			}
+			_, isSlice := m.Elem().Underlying().(*types.Slice)
+			return isSlice && ir.DerivesFrom(v, func(x ssa.Value) bool { _, mk := x.(*ssa.MakeMap); return mk })
+		}
+		isLenIdx := func(v ssa.Value) bool {
+			call, ok := ir.Strip(v).(*ssa.Call)
+			return ok && isBuiltin("len")(call) && isIndex(call.Call.Args[0])
+		}
+		empty := equalIs("len(txidReverseIndex) vs 0", find(fi, binops(eqOps, isLenIdx, constIntIs(0))), true)
+		emptyG, _ := relGuard("len(txidReverseIndex) <= 0", fi, isLenIdx, constIntIs(0), token.LEQ)
+		okExit := func(e ir.Edge) bool {
+			for _, g := range []guard{empty, emptyG} {
+				for _, st := range g.sites {
+					if st.br.Edge() == e || ir.EdgeDominates(fi, st.br.Edge(), e.From) && e.From != st.br.Edge().From && len(e.From.Instrs) == 1 {
+						return true
+					}
+				}
+			}
+			return false
+		}
+		if c.fullRange(fi, header, "the loop over block.Transactions", func(v ssa.Value) bool { return loadsField(txs)(v) }, 0, func(*ssa.Return) bool { return true }, okExit) {
+			// the index shrinks by whole txids only
+			dels := find(fi, mapDelete(isIndex))
+			c.verdict(len(dels) >= 1, c.nm(fi)+" | resolved txids are deleted from the index", c.P.Pos(fi.Pos()), fmt.Sprintf("%d delete(s)", len(dels)), "the txid index is tested for emptiness but nothing is ever deleted from it")
+		}
+	})
+
 	c.rule("C10.V2", "a pending outpoint stays on the watch list until it is answered: the reporter's filter-entry cache (its map field with []byte values) has one entry per outpoint (key type wire.OutPoint: two pending outpoints paying the same script must not share an entry that the first answer removes); addNewRequests enters the request's PkScript under the request's own outpoint; notifyRequests deletes exactly the answered outpoint; ProcessBlock rebuilds filterEntries by appending every cached entry", func() {
 		bsr := c.P.Named("neutrino", "batchSpendReporter")
 		var cache *types.Var
